@@ -2,6 +2,7 @@ package main
 
 import (
 	"fmt"
+	"go/types"
 	"sort"
 	"strings"
 
@@ -704,6 +705,21 @@ func checkC06(c *Ctx) {
 			}
 		}
 	})
+	// the jump step (b+1)*(2^31/((key>>33)+1)) needs 64-bit arithmetic: it reaches numBuckets·2^31
+	wide := true
+	var narrow string
+	instrsOf(jh, func(in ssa.Instruction) {
+		if b, ok := in.(*ssa.BinOp); ok && (b.Op.String() == "*" || b.Op.String() == "/") {
+			if bt, isB := b.Type().Underlying().(*types.Basic); isB && bt.Info()&types.IsInteger != 0 {
+				if bt.Kind() != types.Int64 && bt.Kind() != types.Uint64 {
+					wide = false
+					narrow = p.InstrPos(b) + ": " + b.Op.String() + " computed in " + bt.Name()
+				}
+			}
+		}
+	})
+	c.Check(wide, "jump-hash-arithmetic-width", "loadbalancer.jumpHash", p.Pos(jh.Pos()), "every product/quotient of the jump step is computed in 64 bits",
+		"the jump step is computed in fewer than 64 bits ("+narrow+"): it overflows for some hash values, giving a negative or unrelated bucket (index out of range / clients remapped on append)")
 	c.Check(okLoop && okRet, "jump-hash-in-range", "loadbalancer.jumpHash", p.Pos(jh.Pos()), "the returned bucket is a value of j taken while j < numBuckets",
 		"the returned bucket is not one that was compared below numBuckets (index out of range for some hash values)")
 }
